@@ -1,11 +1,54 @@
 import XmppModel.Model.Negotiate
+import XmppModel.Lemmas.Negotiate
+/-!
+# C04 — session establishment fails closed under faults
+
+The negotiation machine of C01 with faults: the `k`-th I/O operation fails for any set of
+`k` (`O.fault`), the peer's input may end anywhere (`script`), any callback may fail
+(`O.list`, `O.parseErr`, `O.neg`), the context may be cancelled at any point of the trace
+(`O.cancel`).  Theorems hold for every such pattern.
+-/
 namespace XmppModel.Props.C04
 open XmppModel XmppModel.Negotiate
 
-/-- a failed run stays failed -/
-theorem C04_fail_fixed (C : List Feature) (O : Oracle) (c : Conf) (e : ErrCls) (h : c.pc = .fail e) :
-    step C O c = c := by
-  unfold step
-  simp [h]
+variable {C : List Feature} {O : Oracle} {st0 : St} {script : List Peer} {picks : List FName}
+
+theorem invB_reach {c : Conf} (h : Reach C O st0 script picks c) : InvB c := by
+  refine reach_ind (P := InvB) ?_ (fun c _ hc => invB_step C O c hc) c h
+  constructor
+  · intro _ e he; cases he
+  · intro h; cases h
+  · left; intro e he; cases he
+
+/-- **a nil error only for a clean run**: if session establishment reports success, every
+executed step — every read, every write, every `List`, `Parse` and `Negotiate` callback —
+succeeded -/
+theorem C04_nil_only_if_clean {c : Conf} (h : Reach C O st0 script picks c) (hd : c.pc = .done) :
+    ∀ e ∈ c.tr, e.faulty = false :=
+  (invB_reach h).live (by rw [hd]; rfl)
+
+/-- **fail closed**: as soon as any step has failed the machine is failing: it is in a
+`fail` state, or about to flush the unfinished features list and then fail -/
+theorem C04_fail_closed {c : Conf} (h : Reach C O st0 script picks c) {e : Ev} (he : e ∈ c.tr)
+    (hf : e.faulty = true) : (∃ cls, c.pc = .fail cls) ∨ c.pc = .abort := by
+  have hb := invB_reach h
+  cases hp : c.pc <;> first
+    | exact Or.inl ⟨_, rfl⟩
+    | exact Or.inr rfl
+    | (have := hb.live (by rw [hp]; rfl) e he; rw [hf] at this; cases this)
+
+/-- the flush of the unfinished list is followed by the failure -/
+theorem C04_abort_fails (c : Conf) (h : c.pc = .abort) : (step C O c).pc = .fail .cb := by
+  unfold step; simp [h]
+
+/-- a failed run stays failed: no further step, no further event -/
+theorem C04_fail_fixed (c : Conf) (e : ErrCls) (h : c.pc = .fail e) : step C O c = c := by
+  unfold step; simp [h]
+
+/-- **nothing continues after a fault**: in every reachable trace at most one step failed, and
+it is the last event — the single exception is the deferred flush of a features list whose
+`List` callback failed (`writeStreamFeatures` closes its token writer on return) -/
+theorem C04_no_continue_after_fault {c : Conf} (h : Reach C O st0 script picks c) :
+    FaultShape c.tr := (invB_reach h).shape
 
 end XmppModel.Props.C04
